@@ -123,7 +123,7 @@ _cmt_counter = [0]
 
 def _new_comment(rng, state):
     state['ncmt'] += 1
-    tail = rng.choice(['', '', '', ' ä', ' 変数', ' 🎉', ' x = 1', ' (', ' "', " '''", ' \\', ' C:\\tmp\\', ' #', ' ;'])
+    tail = rng.choice(['', '', '', ' ä', ' 変数', ' 🎉', ' x = 1', ' (', ' "', " '''", ' \\', ' C:\\tmp\\', ' #', ' ;', '; then more'])
     return f'# c{state["ncmt"]}{tail}'
 
 
@@ -589,7 +589,7 @@ def rename_tokens(rng, src, unique, p_nonascii):
                 q = s[i:i + 3]
             new = ('b' if 'b' in prefix else '') + q + (body.encode('ascii', 'ignore').decode() if 'b' in prefix else body) + q
         elif unique and t.type == tokenize.COMMENT:
-            new = '# ' + fresh('c') + rng.choice(['', '', '', ' ä', ' 🎉', ' \\'])
+            new = '# ' + fresh('c') + rng.choice(['', '', '', ' ä', ' 🎉', ' \\', ' ;', '; then more', ' #', ' ('])
         if new is not None and new != t.string:
             reps.append((off.abs(t.start), off.abs(t.end), new))
         if t.type not in (tokenize.NL, tokenize.COMMENT):
